@@ -21,11 +21,14 @@ RULE = ('vertical discretisations with 1..8 layers (equidistant, uneven, strongl
         'non-constant reference temperature; distinct = distinct (level set, T_ref, eta, state) hashes')
 
 
+RADIUS = [1.0]   # grid radius of the current case (the eigenvalues -l(l+1)/r^2 enter both L and the solve)
+
+
 def _mk(pe, cs, sc, sh, b, tref, R, kappa, method=None):
-  grid = sh.Grid.with_wavenumbers(4)
+  grid = sh.Grid.with_wavenumbers(4, radius=RADIUS[0])
   coords = cs.CoordinateSystem(horizontal=grid, vertical=sc.SigmaCoordinates(b))
   from dinosaur import scales
-  specs = pe.PrimitiveEquationsSpecs(radius=1.0, angular_velocity=1.0, gravity_acceleration=9.8 / 10,
+  specs = pe.PrimitiveEquationsSpecs(radius=RADIUS[0], angular_velocity=1.0, gravity_acceleration=9.8 / 10,
                                      ideal_gas_constant=R, water_vapor_gas_constant=R * 1.6,
                                      water_vapor_isobaric_heat_capacity=4 * R, kappa=kappa,
                                      scale=scales.DEFAULT_SCALE)
@@ -70,6 +73,9 @@ def run(ctx: common.Ctx):
     R = float(rng.choice([1.0, 287.0 / 100, rng.uniform(0.1, 5)]))
     kappa = float(rng.choice([2 / 7, rng.uniform(0.1, 0.5)]))
     eta = float(rng.choice([-1, 1]) * 10 ** rng.uniform(-3, 3))
+    # the horizontal grid enters through its Laplacian eigenvalues only: every third case has a non-unit radius
+    RADIUS[0] = 1.0 if ci % 3 else float(rng.choice([0.5, 2.0, 4.0]))
+    ctx.dist[f'radius={RADIUS[0]:g}'] += 1
     grid, coords, specs, eq = _mk(pe, cs, sc, sh, b, tref, R, kappa)
     ds = coords.vertical.layer_thickness
     alpha = pe.get_sigma_ratios(coords.vertical)
@@ -78,7 +84,7 @@ def run(ctx: common.Ctx):
     ctx.dist[f'kind={kind}'] += 1
     ctx.dist['Tref=const' if const_t else 'Tref=variable'] += 1
     ctx.dist['eta<0' if eta < 0 else 'eta>0'] += 1
-    base = dict(boundaries=b.tolist(), tref=tref.tolist(), R=R, kappa=kappa, eta=eta)
+    base = dict(boundaries=b.tolist(), tref=tref.tolist(), R=R, kappa=kappa, eta=eta, radius=RADIUS[0])
     ctx.case((b.tobytes(), tref.tobytes(), eta), nontrivial=nontriv, sample=base)
     common_args = f'{fvec(ds)} {fvec(tref)} {fvec(alpha)} {fbits(kappa)}'
 
